@@ -39,7 +39,7 @@ CHECKS = {
          "Production hasher and nine weak hashers (1..16 outputs, repeating bytes, immediate varint fallback) through the verif-tagged constructor; five data tables scanned against the ghost after every step."),
  "C17": ("exploration", "every query × filter value vs brute-force filter of full table scans; page walks key/offset × forward/reverse", "§3 C17",
          "At quiescent points of creation-heavy histories with prefix-related ids, every list and single-entity query of the four services is compared with a brute-force filter over the snapshot; page walks must be complete and duplicate-free."),
- "C18": ("fault_enumeration", "enumerated configuration grid × canonical operations must succeed; exact fee-delta oracle around creations", "§3 C18",
+ "C18": ("exploration", "enumerated configuration grid × canonical operations must succeed; exact fee-delta oracle around creations", "§3 C18",
          "Every configuration of the listed grid is offered to the chain (governance message or genesis); for each accepted one the canonical operations whose preconditions hold by construction must succeed; exact fee debit/burn oracle; settlement oracle on purchases."),
  "C19": ("exploration", "pool-based differential monitor against math/big.Rat with deep operand shadows", "§4 C19",
          "Every Dec operation compared with an independent big.Rat reference; every pool member shadow-compared after every operation to catch mutation and aliasing."),
